@@ -187,6 +187,12 @@ func buildIntrinsics() map[string]intrinsic {
 	t[apiPkg+".NondetByte"] = func(m *Machine, fr *frame, a []Value) Value {
 		return m.nondet(m.goString(a[0], "NondetByte"), 8)
 	}
+	t[apiPkg+".NondetByteRange"] = func(m *Machine, fr *frame, a []Value) Value {
+		v := m.nondet(m.goString(a[0], "NondetByteRange"), 8)
+		lo, hi := a[1].(*sym.Term), a[2].(*sym.Term)
+		m.assume(m.ctx.And(m.ctx.Ule(lo, v), m.ctx.Ule(v, hi)))
+		return v
+	}
 	t[apiPkg+".NondetIntRange"] = func(m *Machine, fr *frame, a []Value) Value {
 		v := m.nondet(m.goString(a[0], "NondetIntRange"), 64)
 		lo, hi := a[1].(*sym.Term), a[2].(*sym.Term)
@@ -270,5 +276,6 @@ func buildIntrinsics() map[string]intrinsic {
 	addMiscIntrinsics(t)
 	addReflectIntrinsics(t)
 	addStubIntrinsics(t)
+	addHashIntrinsics(t)
 	return t
 }
